@@ -503,3 +503,186 @@ def argcheck(case):
         return {"exc": "none", "bases": []}
     except Exception as e:  # noqa
         return {"exc": type(e).__name__, "bases": [c.__name__ for c in type(e).__mro__], "exc_msg": str(e)[:200]}
+
+
+# ---------------------------------------------------------------------------
+# C13: configuration codec and precedence
+
+CFG_SETTINGS = ["default_ns", "default_ew", "layout", "wait_to_parse", "parse_qq", "clean_qq", "sec_colon_required",
+                "sec_colon_cautious", "suppress_lot_divs", "ocr_scrub", "segment", "qq_depth", "qq_depth_min",
+                "qq_depth_max", "break_halves", "sec_within"]
+CFG_BOOLS = {"wait_to_parse", "parse_qq", "clean_qq", "sec_colon_required", "sec_colon_cautious", "suppress_lot_divs",
+             "ocr_scrub", "segment", "break_halves", "sec_within"}
+CFG_INTS = {"qq_depth", "qq_depth_min", "qq_depth_max"}
+
+
+def _cfg_py(s, v):
+    """abstract value string -> python value"""
+    if s in CFG_BOOLS:
+        return v == "True"
+    if s in CFG_INTS:
+        return int(v)
+    return v
+
+
+def _cfg_abs(v):
+    if v is None:
+        return "unset"
+    return str(v)
+
+
+def _cfg_text_token(s, v):
+    if s in CFG_BOOLS:
+        return s if v == "True" else "%s.False" % s
+    if s in ("default_ns", "default_ew"):
+        return v
+    return "%s.%s" % (s, v)
+
+
+def c13_codec(case):
+    import pytrs
+    a = case["args"]
+    cfg = a["cfg"]
+    setd = {s: v for s, v in cfg.items() if v != "unset"}
+    try:
+        if a["via"] == "text":
+            toks = [_cfg_text_token(s, v) for s, v in setd.items()]
+            if a.get("bare_layout") and "layout" in setd:
+                toks = [t if not t.startswith("layout.") else t[7:] for t in toks]
+            sep = a.get("sep", ",")
+            c = pytrs.Config(sep.join(toks))
+        elif a["via"] == "dict":
+            c = pytrs.Config.from_dict({s: _cfg_py(s, v) for s, v in setd.items()})
+        else:
+            c = pytrs.Config.from_kwargs(**{s: _cfg_py(s, v) for s, v in setd.items()})
+        direct = {s: _cfg_abs(getattr(c, s)) for s in CFG_SETTINGS}
+        text = c.decompile_to_text()
+        c2 = pytrs.Config(text)
+        c3 = pytrs.Config(c2)          # a Config given to Config()
+        back = {s: _cfg_abs(getattr(c2, s)) for s in CFG_SETTINGS}
+        back3 = {s: _cfg_abs(getattr(c3, s)) for s in CFG_SETTINGS}
+        if direct != back or back3 != back:
+            # report the first disagreement through obs
+            for s in CFG_SETTINGS:
+                if direct[s] != cfg.get(s, "unset"):
+                    back[s] = direct[s]
+                elif back3[s] != back[s]:
+                    back[s] = back3[s]
+        return {"exc": "none", "obs": back, "text": text}
+    except Exception as e:  # noqa
+        return _exc(e)
+
+
+def c13_unknown(case):
+    import pytrs
+    a = case["args"]
+    try:
+        if a["via"] == "text":
+            pytrs.Config(a["text"])
+        elif a["via"] == "plss":
+            pytrs.PLSSDesc("T154N-R97W Sec 14: NE/4", config=a["text"])
+        else:
+            pytrs.Tract("NE/4", config=a["text"])
+        return {"exc": "none"}
+    except Exception as e:  # noqa
+        return _exc(e)
+
+
+C13_TEXTS = {
+    "default_ns": "T154-R97W Sec 14: NE/4", "default_ew": "T154N-R97 Sec 14: NE/4",
+    "layout": "T154N-R97W Sec 14: NE/4, Sec 15: W/2",
+    "wait_to_parse": "T154N-R97W Sec 14: NE/4", "parse_qq": "T154N-R97W Sec 14: NE/4",
+    "clean_qq": "T154N-R97W Sec 14: NE", "sec_colon_required": "T154N-R97W Sec 14 NE/4, Sec 15: W/2",
+    "sec_colon_cautious": "T154N-R97W Sec 14 NE/4, Sec 15 W/2",
+    "suppress_lot_divs": "T154N-R97W Sec 14: N/2 of Lot 1, Lot 2", "ocr_scrub": "TIS4N-R97W Sec 14: NE/4",
+    "segment": "QXJVZK T154N-R97W Sec 14: NE/4, W/2 of Sec 15, T155N-R97W",
+    "qq_depth": "T154N-R97W Sec 14: N½N½S½NE¼NW¼", "qq_depth_min": "T154N-R97W Sec 14: N½N½S½",
+    "qq_depth_max": "T154N-R97W Sec 14: N½NE¼NW¼SE¼SW¼", "break_halves": "T154N-R97W Sec 14: N½N½NE¼",
+    "sec_within": "T154N-R97W: That part of the NE/4 of Sec 13 lying within RoW",
+}
+C13_TRACT_TEXTS = {"parse_qq": "NE/4", "clean_qq": "NE", "suppress_lot_divs": "N/2 of Lot 1, Lot 2",
+                   "qq_depth": "N½N½S½NE¼NW¼", "qq_depth_min": "N½N½S½", "qq_depth_max": "N½NE¼NW¼SE¼SW¼",
+                   "break_halves": "N½N½NE¼"}
+_TRACT_LEVEL = {"clean_qq", "suppress_lot_divs", "qq_depth", "qq_depth_min", "qq_depth_max", "break_halves"}
+
+
+def _c13_concrete(s, v):
+    if s == "qq_depth_max":
+        return int(v) + 1          # 2, 3, 4 (never below the default minimum)
+    return _cfg_py(s, v)
+
+
+def _c13_run(scn, table):
+    import pytrs
+    from pytrs import MasterConfig
+    s, target = scn["s"], scn["target"]
+
+    def val(ch):
+        if scn["ch"] == ch:
+            return scn["v"]
+        if scn["ch2"] == ch:
+            return scn["v2"]
+        return None
+
+    def cfgtext(v):
+        if v is None:
+            return None
+        cv = _c13_concrete(s, v)
+        if s in CFG_BOOLS:
+            return s if cv else "%s.False" % s
+        if s in ("default_ns", "default_ew"):
+            return cv
+        if s == "layout":
+            return cv
+        return "%s.%d" % (s, cv)
+
+    init_kw = {}
+    if val("init_kw") is not None:
+        init_kw[s] = _c13_concrete(s, val("init_kw"))
+    parse_kw = {}
+    if val("parse_kw") is not None:
+        parse_kw[s] = _c13_concrete(s, val("parse_kw"))
+    old = (MasterConfig.default_ns, MasterConfig.default_ew)
+    try:
+        if val("mc") is not None:
+            setattr(MasterConfig, s, val("mc"))
+        if target == "plss":
+            text = C13_TEXTS[s]
+            base_cfg = "parse_qq" if s in _TRACT_LEVEL else None
+            ic = ",".join(x for x in (base_cfg, cfgtext(val("init_config"))) if x) or None
+            if s == "wait_to_parse":
+                d = pytrs.PLSSDesc(text, config=ic, **init_kw)
+            else:
+                d = pytrs.PLSSDesc(text, config=ic, wait_to_parse=True, **init_kw)
+                if val("assign_config") is not None:
+                    d.config = cfgtext(val("assign_config"))
+                d.parse(**parse_kw)
+            proj = (d.current_layout, d.pp_desc,
+                    tuple((t.trs, t.desc, tuple(t.lots), tuple(t.qqs), t.parse_complete) for t in d.tracts),
+                    tuple(sorted(map(repr, d.w_flags))), tuple(sorted(map(repr, d.e_flags))))
+        else:
+            text = C13_TRACT_TEXTS[s]
+            t = pytrs.Tract(text, "154n97w14", config=cfgtext(val("init_config")), **init_kw)
+            if val("assign_config") is not None:
+                t.config = cfgtext(val("assign_config"))
+            if s != "parse_qq":
+                t.parse(**parse_kw)
+            proj = (t.trs, t.pp_desc, tuple(t.lots), tuple(t.qqs), t.parse_complete, tuple(sorted(map(repr, t.w_flags))))
+        return table.setdefault(proj, len(table) + 1), "none", repr(proj)[:300]
+    except Exception as e:  # noqa
+        return 0, type(e).__name__, str(e)[:200]
+    finally:
+        MasterConfig.default_ns, MasterConfig.default_ew = old
+
+
+def c13_scenario(case):
+    a = case["args"]
+    table = {}
+    fo, eo, ro = _c13_run(a["scn"], table)
+    fr, er, rr = _c13_run(a["ref"], table)
+    default = dict(a["ref"], v=None, ch="none")
+    default["ch"] = "none"
+    fd, ed, rd = _c13_run({"target": a["scn"]["target"], "s": a["scn"]["s"], "v": "unset", "ch": "none",
+                           "ch2": "none", "v2": "unset"}, table)
+    return {"fp_obs": fo, "exc_obs": eo, "fp_ref": fr, "exc_ref": er, "fp_default": fd,
+            "raw_obs": ro, "raw_ref": rr}
